@@ -19,7 +19,8 @@ from common import r_bytes, r_int, r_list, tokb, tok
 
 MODES = ["r", "w", "a", "r+", "w+", "a+"]
 CONTENTS = [b"", b"x", b"abc\ndef"]
-CALLS = [("read", None), ("read", 0), ("read", 1), ("read", 2), ("readline",), ("write", b"ab"), ("write", b""),
+CALLS = [("read", None), ("read", 0), ("read", 1), ("read", 2), ("readline",), ("readline", 0), ("readline", 2),
+         ("readlines", 0), ("write", b"ab"), ("write", b""),
          ("writelines", b"Z", b"\n"), ("seek", 0, 0), ("seek", 1, 0), ("seek", 9, 0), ("seek", 1, 1), ("seek", 0, 2),
          ("seek", -1, 2), ("seek", -1, 0), ("seek", 2, 2), ("tell",), ("truncate", None), ("truncate", 0),
          ("truncate", 2), ("truncate", 9), ("flush",)]
@@ -30,7 +31,9 @@ def enc_call(i, c):
     if n == "read":
         return ["2", str(i), "1", "-" if c[1] is None else str(c[1])]
     if n == "readline":
-        return ["2", str(i), "2"]
+        return ["2", str(i), "2"] if len(c) == 1 else ["2", str(i), "1", str(c[1])]   # sized: modelled via read on one line below
+    if n == "readlines":
+        return ["2", str(i), "6"]
     if n == "write":
         return ["2", str(i), "3", tokb(c[1])]
     if n == "writelines":
@@ -63,7 +66,9 @@ def do_call(f, c):
             r = f.read() if c[1] is None else f.read(c[1])
             return "b" + r_bytes(r)
         if n == "readline":
-            return "b" + r_bytes(f.readline())
+            return "b" + r_bytes(f.readline() if len(c) == 1 else f.readline(c[1]))
+        if n == "readlines":
+            return "[" + ",".join(r_bytes(x) for x in f.readlines(c[1])) + "]"
         if n == "write":
             return r_int(f.write(c[1]))
         if n == "writelines":
@@ -138,6 +143,10 @@ def backend_case(kind, content, steps, d):
         o = OSFS(root)
         o.writebytes("f", content)
         return run_real(lambda mode: o.openbin("f", mode, buffering=0), lambda: o.readbytes("f"), steps)
+    if kind == "memopen":
+        m = MemoryFS()
+        m.writebytes("f", content)
+        return run_real(lambda mode: m.open("f", mode, buffering=-1), lambda: m.readbytes("f"), steps)
     if kind == "submem":
         m = MemoryFS()
         s = m.makedir("d")
@@ -214,11 +223,13 @@ def run(report, forced=None):
             total += 1
             nontrivial.add(model[i])
             dom = in_domain(s, model[i])
+            unmodelled = any(x[0] == "call" and ((x[2][0] == "readline" and len(x[2]) > 1) or x[2][0] == "readlines")
+                             for x in s)
             # (a) real _MemoryFile vs its proved model
-            if not same(mem[i], model[i], dom):
+            if not unmodelled and not same(mem[i], model[i], dom):
                 bad.append(("MemoryFS handle vs IO/MemFile.v model", i, mem[i], model[i]))
             # (b) the reference vs a real io.FileIO (validates the reference)
-            if not same(fio[i], ref[i], dom):
+            if not unmodelled and not same(fio[i], ref[i], dom):
                 bad.append(("reference IO/MemFile.v ref_frun vs io.FileIO", i, fio[i], ref[i]))
             # (c) the property itself: real MemoryFS handle vs real io.FileIO
             if not same(mem[i], fio[i], dom):
@@ -226,13 +237,13 @@ def run(report, forced=None):
         # other backends against io.FileIO
         rnd = random.Random(report.seed + 161)
         others = 0
-        for kind in ("osfs", "submem", "zip", "tar"):
+        for kind in ("osfs", "submem", "memopen", "zip", "tar"):
             sample = rnd.sample(range(len(cases)), min(len(cases), 400 if report.tier == "thorough" else 120))
             for i in sample:
                 c, s = cases[i]
                 if kind in ("zip", "tar"):
                     s = [x for x in s if x[0] == "open" and x[1] == "r" or
-                         (x[0] == "call" and x[2][0] in ("read", "readline", "seek", "tell"))]
+                         (x[0] == "call" and x[2][0] in ("read", "readline", "readlines", "seek", "tell"))]
                     # zipfile/tarfile members clamp seeks at EOF (as CPython's own ZipExtFile does)
                     s = [("open", "r")] + [("call", 0, x[2]) for x in s if x[0] == "call"
                                            and not (x[2][0] == "seek" and (x[2][1] != 0 or x[2][2] == 1))]
@@ -285,6 +296,10 @@ def in_domain(steps, model_out):
     res = model_out.split("#")[0][1:-1].split(";")
     modes = [x[1] for x in steps if x[0] == "open"]
     for idx, s in enumerate(steps):
+        # RawIOBase.readline(0) returns b'' without ever checking that the handle is readable
+        if s[0] == "call" and s[2][0] == "readline" and len(s[2]) > 1 and s[2][1] == 0 \
+                and not ("r" in modes[s[1]] or "+" in modes[s[1]]):
+            return idx
         # a zero-length write through an append-mode handle: io.FileIO leaves the offset alone,
         # the reference (and _MemoryFile) report the end of file; nothing is written either way
         if s[0] == "call" and s[2][0] in ("write", "writelines") and "a" in modes[s[1]] \
